@@ -329,7 +329,7 @@ pub fn run(cfg: &Cfg) -> Report {
     }
     let s = parallel(cfg, 1, |t| {
         let algos = crc_algos();
-        let frames = t.cfg.scale(1, 16, 160);
+        let frames = t.cfg.scale(1, 32, 320);
         let mut i = 0u64;
         for ai in 0..algos.len() {
             for rep_i in 0..frames {
